@@ -457,3 +457,69 @@ def tfi_wiring(prog, _):
         elif r == "unknown":
             res["inconclusive"].append("test_fajr_isha oracle undecided")
     return finish(res, I, S, t0)
+
+
+def astro_new_total(prog, _):
+    """Astro::new(jd) is total on the property's date range: for every real Julian Day in [2305440, 2597650] (1599-12-25 .. 2400-01-05,
+    any GMT offset) no path panics (index, unwrap, overflow, cast), exceeds the loop bound or uses an unmodelled construct; the series
+    tables are iterated in full. (Accuracy of the value is NOT part of this obligation.)"""
+    t0 = time.time()
+    res = new_res("Astro::new is total (no panic / unbounded loop) for every Julian Day of 1600..2399", ["Astro::new", "Astro::calc_sum", "Astro::pow_series"])
+    S = smt.Smt()
+    I = interp.Interp(prog, mode="sym", smt=S, max_unroll=200)
+    st = interp.State()
+    jd = z3.Real("jd")
+    st.add([jd >= 2305440, jd <= 2597650])
+
+    def mf(m):
+        return {"jd": mval(m, jd)}
+    outs = I.run_body(prog.find_body("Astro::new"), [jd], st=st)
+    for o in outs:
+        res["paths"] += 1
+        if o.kind == "panic":
+            r, m = S.check(o.st.pc, timeout_ms=30000, want_model=True)
+            res["queries"] += 1
+            if r == "sat":
+                res["cands"].append({"what": "Astro::new panics: %s" % str(o.info)[:200], "inputs": mf(m), "astro_jd": True})
+            elif r == "unknown":
+                res["inconclusive"].append("panic path undecided: %s" % str(o.info)[:100])
+        elif o.kind != "return":
+            res["inconclusive"].append("%s: %s" % (o.kind, str(o.info)[:200]))
+    if not any(o.kind == "return" for o in outs):
+        res["inconclusive"].append("vacuous: no returning path")
+    res["witness"] = sum(1 for o in outs if o.kind == "return")
+    return finish(res, I, S, t0)
+
+
+def from_ad_total(prog, _):
+    """TopAstroDay::from_ad(day, coords) is total: for every geocentric triple within the ephemeris ranges and every admissible place no
+    path panics or runs past the loop bound, and the result carries the given coordinates and day (the parallax-corrected values
+    themselves are not part of this obligation)."""
+    t0 = time.time()
+    res = new_res("TopAstroDay::from_ad is total and keeps coords/day for every place and geocentric triple", ["TopAstroDay::from_ad"])
+    S = smt.Smt()
+    I = interp.Interp(prog, mode="sym", smt=S, max_unroll=16)
+    st = interp.State()
+    A = sym_astros()
+    st.add(eph_constraints(A))
+    lat, lon, elev = z3.Real("lat"), z3.Real("lon"), z3.Real("elev")
+    st.add([lat >= -90, lat <= 90, lon >= -180, lon <= 180, elev >= -420, elev <= 8848])
+    tad = mk_tad(I, lat, lon, elev, [mk_astro(I, x["dra"], x["dec"], x["ra"], x["rsum"], x["sid"]) for x in A])
+    names = I.prog.structs["TopAstroDay"]
+    ad = tad.fields[names.index("astro_day")]
+    coords = Struct("Coordinates", [Struct("Latitude", (lat,)), Struct("Longitude", (lon,)), Struct("Elevation", (elev,))])
+
+    def mf(m):
+        return {"lat": mval(m, lat), "lon": mval(m, lon), "elev": mval(m, elev)}
+    outs = I.run_body(prog.find_body("TopAstroDay::from_ad"), [ad, coords], st=st)
+    for o in std_path_checks(res, I, S, outs, mf):
+        v = o.value
+        ok = isinstance(v, Struct) and v.ty == "TopAstroDay"
+        if ok:
+            c2 = v.fields[names.index("coords")]
+            ok = c2.fields[0].fields[0] is lat and c2.fields[1].fields[0] is lon and c2.fields[2].fields[0] is elev
+            a2 = v.fields[names.index("astros")]
+            ok = ok and isinstance(a2, (VecV, Arr)) and len(a2.items) == 3
+        if not ok:
+            res["cands"].append({"what": "from_ad does not return a TopAstroDay with the given coordinates and three positions", "inputs": {}})
+    return finish(res, I, S, t0)
